@@ -230,7 +230,9 @@ Theorem C26_paths_deny : forall p, unguarded_known p = false -> silent_known p =
 Proof. exact paths_deny. Qed.
 Print Assumptions C26_paths_deny.
 
-(** DELETE swallows the refusal raised inside its WHERE clause (KNOWN: delete-where-error-swallowed) *)
+(** the window PARTITION BY clause swallows the refusal raised by a subquery inside it: the statement succeeds,
+    without the subquery's rows (KNOWN: window-partition-error-swallowed).  (DELETE used to do the same with its
+    WHERE clause until the fix "same truth-value rule (and the same errors) as SELECT ... WHERE".) *)
 Theorem C26_paths_deny_refuted : exists p held t a,
   unguarded_known p = false /\ In (t, a) (required p) /\ held t a = false /\ fst (run held (program p)) = OOk.
 Proof. exact paths_deny_refuted. Qed.
